@@ -1,5 +1,6 @@
-(* C05: further dense models (definitions only; same conventions and the same tie to the code as Model/FactorDense.v:
-   transcriptions read from qr / lq / _eig_worker, not executed against the code):
+(* C05: further dense models (definitions only; same conventions as Model/FactorDense.v; proof vocabulary that
+   re-describes, sector by sector / pair by pair, results whose structure is executed against the code through
+   eig_plan (check_eig_case) and qr_charges / lq_charges (check_qr_case, check_lq_case); not executed themselves):
    - eigh / eig: the block-diagonal input and the eigenvector matrix, sector by sector;
    - qr / lq (any mode): blocks of the two factors paired through blocks of the inner leg, whose numbers are
      map_qind[qi_L] (reduced: the projected leg) or qi_L (complete). *)
